@@ -43,10 +43,17 @@ func init() {
 func ruleC05R1(c *Ctx) {
 	// pipeline input channel: received only by the worker main loop
 	n := 0
+	// the worker body: _baseRun and its private helpers (_baseProcessMain today)
+	workerBody := map[string]bool{}
+	for _, f := range c.P.Fns(aBaseRun) {
+		for _, g := range c.regionOf(f) {
+			workerBody[anchorName(g)] = true
+		}
+	}
 	for _, op := range c.chanFieldOps(fBaseInput) {
 		n++
-		c.check(anchorName(op.In.Parent()) == aProcMain && op.Kind == "recv", "C05.R1", op.In.Parent(), op.Kind+" on PipelineWorkerBase._baseInput", op.In.Pos(),
-			"the pipeline channel is consumed only by _baseProcessMain", "a second consumer (or a producer) of the pipeline input channel reorders records")
+		c.check(workerBody[anchorName(op.In.Parent())] && op.Kind == "recv", "C05.R1", op.In.Parent(), op.Kind+" on PipelineWorkerBase._baseInput", op.In.Pos(),
+			"the pipeline channel is consumed only by the worker goroutine's body (_baseRun and its private helpers)", "a second consumer (or a producer) of the pipeline input channel reorders records")
 	}
 	c.floor("C05.R1", "operations on _baseInput", n, 1)
 	n = 0
@@ -328,27 +335,44 @@ func ruleC05R3(c *Ctx) {
 			continue
 		}
 		n++
-		for _, rv := range returnedValues(f, 0) {
-			v := strip(rv.Val)
-			ok := false
+		// inductive: the channel-returning functions of the client form a closed set — each returns nil, a channel it was
+		// given, the result of another member (which is checked in its turn), or, in newLeftoverChannel only, a new channel
+		member := func(sc *ssa.Function) bool {
+			return sc != nil && sc.Blocks != nil && strings.HasPrefix(fnPkgPath(sc), modPath+"/output/baseoutput") &&
+				sc.Signature.Results().Len() > 0 && chunkHolderKind(sc.Signature.Results().At(0).Type()) == "chan"
+		}
+		var fromMember func(v ssa.Value, seen map[ssa.Value]bool) bool
+		fromMember = func(v ssa.Value, seen map[ssa.Value]bool) bool {
+			v = strip(v)
+			if seen[v] {
+				return true
+			}
+			seen[v] = true
 			switch x := v.(type) {
 			case *ssa.Const:
-				ok = x.IsNil()
+				return x.IsNil()
 			case *ssa.Parameter:
-				ok = true
+				return true
 			case *ssa.Call:
-				if sc := x.Common().StaticCallee(); sc != nil && isAnchor(sc, aNewLeftChan, aCollect) {
-					ok = true
-				}
+				return member(x.Common().StaticCallee())
 			case *ssa.Extract:
-				if cl, isC := x.Tuple.(*ssa.Call); isC {
-					if sc := cl.Common().StaticCallee(); sc != nil && isAnchor(sc, aSessRun, aResend, aProcInput) {
-						ok = true
-					}
+				if cl, isC := x.Tuple.(*ssa.Call); isC && x.Index == 0 {
+					return member(cl.Common().StaticCallee())
 				}
 			case *ssa.MakeChan:
-				ok = anchorName(f) == aNewLeftChan
+				return anchorName(f) == aNewLeftChan
+			case *ssa.Phi:
+				for _, e := range x.Edges {
+					if !fromMember(e, seen) {
+						return false
+					}
+				}
+				return true
 			}
+			return false
+		}
+		for _, rv := range returnedValues(f, 0) {
+			ok := fromMember(rv.Val, map[ssa.Value]bool{})
 			c.check(ok, "C05.R3", f, "returned chunk channel comes from newLeftoverChannel", rv.At.Pos(), "the channel is nil, passed through, or built by newLeftoverChannel/collectLeftovers", "a leftovers channel is built without sorting by ID")
 		}
 	}
